@@ -10,7 +10,8 @@
 (*      -1 = not implemented), snap : snapshot or <<>>, dtr0, dtr1, wes,       *)
 (*      unlock : value that unlocks (0x55 unless the unit is odd),             *)
 (*      nobble : DTR0 does not advance on writes, echoflip : echoes v+1,       *)
-(*      fault : [at |-> n-th READ/WRITE answer, kind |-> "silent"|"err"|"none"],*)
+(*      fault : [at |-> n-th READ/WRITE answer, kind |-> "silent"|"err"|       *)
+(*               "errsame" (framing error carrying the expected bits)|"none"],  *)
 (*      nans : answers to READ/WRITE given so far]                             *)
 EXTENDS CmdCodec, MemMap
 
@@ -41,7 +42,9 @@ Inc(x) == IF x < 255 THEN x + 1 ELSE x
 \* apply the fault plan to an answer to READ / WRITE MEMORY LOCATION
 Faulted(u, ans) ==
     IF u.fault.kind # "none" /\ u.nans + 1 = u.fault.at
-    THEN (IF u.fault.kind = "silent" THEN Silent ELSE <<"err", 255>>)
+    THEN (IF u.fault.kind = "silent" THEN Silent
+          ELSE IF u.fault.kind = "errsame" /\ ans[1] = "val" THEN <<"err", ans[2]>>   \* garbled, yet the same data bits
+          ELSE <<"err", 255>>)
     ELSE ans
 
 Step(u, len, f) ==
